@@ -417,6 +417,14 @@ def run(idx: ProgramIndex, rep: Report, tier: str, selftest: bool = True):
     rule_scalar(idx, rep)
     rule_scalar_dtype(idx, rep)
     rule_hook_layering(idx, rep)
+    from ..recordmut import report_denotation_container_mutations
+
+    from .side import check_sides
+
+    rep.rule("C02.O", "special-case products of two operators keep the operand order (self on the left in matmul)", floor=15)
+    check_sides(idx, rep, PROP, "C02.O")
+    rep.rule("C02.D", "a rewrite never mutates a container-valued constructor attribute of the operator it rewrites", floor=1)
+    report_denotation_container_mutations(idx, rep, PROP, "C02.D")
     if selftest:
         from ..selftest import run_fixtures
 
